@@ -209,7 +209,7 @@ def run_contracts(case):
         if log["evaluations"].get(fn):
             sigs.add("contract|" + fn)
     total = sum(log["evaluations"].values())
-    return {"verdict": "violated" if viol else "held", "violations": viol[:25], "evaluations": total, "nontrivial_sigs": sorted(sigs),
+    return {"verdict": "violated" if viol else "held", "violations": pipeline.diverse(viol, 40), "evaluations": total, "nontrivial_sigs": sorted(sigs),
             "counters": counters,
             "sample": {"in_situ": log["in_situ"], "fuzz": {k: log["evaluations"][k] - log["in_situ"][k] for k in log["evaluations"]},
                        "template_call_shapes(width/offset/indent)": dict(list(log["widths_seen"].items())[:8]),
@@ -357,7 +357,7 @@ def run_diff(case):
                              "mech": {**mech, "kind": pr["kind"]}})
     if not viol:
         counters["hostile_classes"] = 1
-    return {"verdict": "violated" if viol else "held", "violations": viol[:15], "evaluations": counters["differential_modules"] + counters["docstrings_checked"],
+    return {"verdict": "violated" if viol else "held", "violations": pipeline.diverse(viol, 40), "evaluations": counters["differential_modules"] + counters["docstrings_checked"],
             "nontrivial_sigs": [] if viol else ["hostile|" + case["hostile"]], "counters": counters,
             "sample": {"hostile": case["hostile"], "modules_compared": counters["differential_modules"], "docstrings_checked": counters["docstrings_checked"],
                        "a_comment": next(iter(texts.values()), "")[:200]}}
